@@ -11,6 +11,11 @@ pub async fn build_target(
     target: &BuildTarget,
     mut build_cancellation_events: Receiver<BuildCancellationMessage>,
 ) -> Result<BuildTerminationReport> {
+    #[cfg(zinoma_verif)]
+    if crate::verif::hooks::sim_active() {
+        return crate::verif::hooks::virtual_build(target, build_cancellation_events).await;
+    }
+
     let target_start = Instant::now();
     log::info!("{} - Building", target);
 
